@@ -777,17 +777,63 @@ theorem Sound.gen_signedAngle {ax p c : ℝ → V3 (Dual ℝ)} (hax : SoundV3 ax
       ∨ V3.dot (V3.cross (reV3 (p t)) (reV3 (c t))) (reV3 (ax t)) ≠ 0) :
     Sound (fun u => Gen.signedAngle (ax u) (p u) (c u)) t := by
   obtain ⟨a1, a2, a3⟩ := hax; obtain ⟨p1, p2, p3⟩ := hp; obtain ⟨c1, c2, c3⟩ := hc
-  simp only [Gen.signedAngle]
-  exact Sound.atan2 (by sound) (by sound) h
+  -- the two arguments of atan2 as sound curves
+  have hT1 : Sound (fun u => ((((p u).y * (c u).z) - ((p u).z * (c u).y)) * (ax u).x
+      + (((p u).z * (c u).x) - ((p u).x * (c u).z)) * (ax u).y)
+      + (((p u).x * (c u).y) - ((p u).y * (c u).x)) * (ax u).z) t := by sound
+  have hT2 : Sound (fun u => (((p u).x * (c u).x) + ((p u).y * (c u).y)) + ((p u).z * (c u).z)) t := by sound
+  -- off the branch cut the zero-vector guard of `signed_angle` is locally inactive
+  have hplain := Sound.atan2 hT1 hT2 h
+  have hev : ∀ᶠ u in 𝓝 t, Gen.signedAngle (ax u) (p u) (c u)
+      = HasTrig.atan2 (((((p u).y * (c u).z) - ((p u).z * (c u).y)) * (ax u).x
+          + (((p u).z * (c u).x) - ((p u).x * (c u).z)) * (ax u).y)
+          + (((p u).x * (c u).y) - ((p u).y * (c u).x)) * (ax u).z)
+        ((((p u).x * (c u).x) + ((p u).y * (c u).y)) + ((p u).z * (c u).z)) := by
+    rcases h with h | h
+    · have ev := Sound.eventually_lt (Sound.zero (t := t)) hT2 h
+      filter_upwards [ev] with u hu
+      simp only [Gen.signedAngle]
+      first
+        | rfl
+        | (have hne : eqR ((((p u).x * (c u).x) + ((p u).y * (c u).y)) + ((p u).z * (c u).z)) 0 = false := by
+             simp only [eqR, Bool.and_eq_false_iff, Bool.not_eq_false', decide_eq_true_eq]; exact Or.inr hu
+           simp only [hne, Bool.false_and, Bool.false_eq_true, if_false])
+    · rcases lt_or_gt_of_ne h with h' | h'
+      · have ev := Sound.eventually_lt hT1 (Sound.zero (t := t)) h'
+        filter_upwards [ev] with u hu
+        simp only [Gen.signedAngle]
+        first
+          | rfl
+          | (have hne : eqR (((((p u).y * (c u).z) - ((p u).z * (c u).y)) * (ax u).x
+                 + (((p u).z * (c u).x) - ((p u).x * (c u).z)) * (ax u).y)
+                 + (((p u).x * (c u).y) - ((p u).y * (c u).x)) * (ax u).z) 0 = false := by
+               simp only [eqR, Bool.and_eq_false_iff, Bool.not_eq_false', decide_eq_true_eq]; exact Or.inl hu
+             simp only [hne, Bool.and_false, Bool.false_eq_true, if_false])
+      · have ev := Sound.eventually_lt (Sound.zero (t := t)) hT1 h'
+        filter_upwards [ev] with u hu
+        simp only [Gen.signedAngle]
+        first
+          | rfl
+          | (have hne : eqR (((((p u).y * (c u).z) - ((p u).z * (c u).y)) * (ax u).x
+                 + (((p u).z * (c u).x) - ((p u).x * (c u).z)) * (ax u).y)
+                 + (((p u).x * (c u).y) - ((p u).y * (c u).x)) * (ax u).z) 0 = false := by
+               simp only [eqR, Bool.and_eq_false_iff, Bool.not_eq_false', decide_eq_true_eq]; exact Or.inr hu
+             simp only [hne, Bool.and_false, Bool.false_eq_true, if_false])
+  exact Sound.congr_of_eventuallyEq hplain hev
 theorem re_gen_signedAngle (ax p c : V3 (Dual ℝ)) :
-    (Gen.signedAngle ax p c).re = Gen.signedAngle (reV3 ax) (reV3 p) (reV3 c) := rfl
+    (Gen.signedAngle ax p c).re = Gen.signedAngle (reV3 ax) (reV3 p) (reV3 c) := by
+  first
+    | rfl
+    | (simp only [Gen.signedAngle, Sound.atan2_re, apply_ite Dual.re]; rfl)
 theorem gen_signedAngle_deriv {ax p c : ℝ → V3 (Dual ℝ)} (hax : SoundV3 ax t) (hp : SoundV3 p t)
     (hc : SoundV3 c t)
     (h : 0 < V3.dot (reV3 (p t)) (reV3 (c t))
       ∨ V3.dot (V3.cross (reV3 (p t)) (reV3 (c t))) (reV3 (ax t)) ≠ 0) :
     HasDerivAt (fun u => Gen.signedAngle (reV3 (ax u)) (reV3 (p u)) (reV3 (c u)))
-      (Gen.signedAngle (ax t) (p t) (c t)).du t :=
-  Sound.gen_signedAngle hax hp hc h
+      (Gen.signedAngle (ax t) (p t) (c t)).du t := by
+  have hs := Sound.gen_signedAngle hax hp hc h
+  unfold Sound at hs
+  simpa only [re_gen_signedAngle] using hs
 
 end gen
 
